@@ -1023,6 +1023,21 @@ fire("c15-logeinsum-uncontracted-operand-gets-ones", "C15", NUMPY_LOG,
      "        if any(dim not in output for dim in dims):\n            exp_operands.append(ops.exp(operand - shift))\n        else:\n            exp_operands.append(ops.new_full(operand, operand.shape, 1.0))\n",
      "R15.8", "einsum")
 
+
+# ---- symmetry of Python defaults (R01.12 / R15.11), name-based identity of logaddexp
+fire("c01-logaddexp-default-asymmetric", "C01", ARRAY,
+     "    return log(exp(x - shift) + exp(y - shift)) + shift\n", "    return shift + log1p(exp(y - x))\n", "R01.12", "logaddexp")
+silent("c01-s-logaddexp-default-commuted", "C01", ARRAY,
+       "    return log(exp(x - shift) + exp(y - shift)) + shift\n", "    return shift + log(exp(y - shift) + exp(x - shift))\n")
+silent("c15-s-logaddexp-default-commuted", "C15", ARRAY,
+       "    return log(exp(x - shift) + exp(y - shift)) + shift\n", "    return shift + log(exp(y - shift) + exp(x - shift))\n")
+silent("c08-s-logaddexp-default-commuted", "C08", ARRAY,
+       "    return log(exp(x - shift) + exp(y - shift)) + shift\n", "    return shift + log(exp(y - shift) + exp(x - shift))\n")
+silent("c02-s-logaddexp-default-via-local", "C02", ARRAY,
+       "    return log(exp(x - shift) + exp(y - shift)) + shift\n", "    total = exp(x - shift) + exp(y - shift)\n    return log(total) + shift\n")
+fire("c15-logaddexp-default-log1p-abs-nan-at-minus-inf", "C15", ARRAY,
+     "    return log(exp(x - shift) + exp(y - shift)) + shift\n", "    return shift + log1p(exp(-abs(x - y)))\n", "R15.8", "logaddexp")
+
 # ===== derived variants: must stay at the END of this file (they enumerate every rename() variant above) =====
 # `if c: A else: B` -> `if not c: B else: A` in the anchor functions (behaviour-preserving)
 def invert(prop, file, qual):
